@@ -190,7 +190,18 @@ func (c *compiler) evalUserFunction(node *userFunction, args []ast.Expression) (
 		c.ctx.Set(p.Value, vals[i])
 	}
 
-	return c.evalBlockStatement(node.Block)
+	res, err := c.evalBlockStatement(node.Block)
+	if err != nil {
+		return nil, err
+	}
+
+	// a return statement ended the call: the call yields the returned
+	// value itself, so that it can be operated on, tested and passed on
+	if ro, ok := res.(returnObject); ok {
+		return ro.returned(), nil
+	}
+
+	return res, nil
 }
 
 func (c *compiler) evalFunctionLiteral(node *ast.FunctionLiteral) (interface{}, error) {
